@@ -4,3 +4,5 @@ cd /verif
 for p in $(.venv/bin/python -c "import json; print(' '.join(c['property_id'] for c in json.load(open('MANIFEST.json'))['checks']))"); do
   ./check $p --tier quick 2>&1 | grep -E "^(VIOLATION|UNDECIDED|CHECKER|$p:)" | cut -c1-200
 done
+# CPython cross-check of the engine's container / arithmetic models
+.venv/bin/python tools/selftest.py 2>&1 | grep -E "^(selftest|  DISAGREE)" | cut -c1-200
